@@ -15,6 +15,7 @@ CONSTANTS
   LookOps = {"get", "keys"}
   OffChoices = {{}}
   Stars = FALSE
+  XOps = {}
   ReReg = FALSE
   AllOrders = FALSE
   PrintUniverse = FALSE
